@@ -54,7 +54,8 @@ func c18Text(rt *rapid.T, label string, max int) string {
 	var s string
 	switch rapid.IntRange(0, 5).Draw(rt, label+"_k") {
 	case 0:
-		s = rapid.SampledFrom([]string{"", "t", "Hello world", "multi\nline", "caf\xe9 \xff", "x: y", "- item", "> quote", "| pipe", "#", "trailing space ", "'q'", strings.Repeat("T", 255), strings.Repeat("long ", 51), "\ttab"}).Draw(rt, label)
+		s = rapid.SampledFrom([]string{"", "t", "Hello world", "multi\nline", "caf\xe9 \xff", "x: y", "- item", "> quote", "| pipe", "#", "trailing space ", "'q'", strings.Repeat("T", 255), strings.Repeat("long ", 51), "\ttab",
+			"\nleading line break", "\ttab then\nline break", " blank then\nline break", "\u2028sep\nx", "\r\ncr first", "\n", "\n\n", "\t\n"}).Draw(rt, label)
 	case 1:
 		n := rapid.SampledFrom([]int{0, 1, 127, 128, 200, 254, 255}).Draw(rt, label+"_n")
 		s = string(genBytes(rt, label, n))
@@ -264,9 +265,6 @@ func c18prop(ev *evid.Rec) func(rt *rapid.T) {
 				"setPoster": func(rt *rapid.T) {
 					s.rt = rt
 					name := c18Text(rt, "poster", 255)
-					if strings.HasPrefix(name, "\n") {
-						name = "_" + name[1:]
-					}
 					s.c.Request(hlref.TranSetClientUserInfo, sfld(hlref.FUserName, name), fld(hlref.FUserIconID, hlref.BE16(1)))
 					s.poster = name
 					rec("poster=%q", name)
@@ -281,12 +279,6 @@ func c18prop(ev *evid.Rec) func(rt *rapid.T) {
 					title := c18Text(rt, "title", 255)
 					bodyLen := rapid.SampledFrom([]int{0, 1, 50, 500, 5000, 60000}).Draw(rt, "bodylen")
 					body := string(genBytes(rt, "body", bodyLen))
-					for _, x := range []*string{&title, &body} {
-						if strings.HasPrefix(*x, "\n") {
-							ev.Exclude("text with a leading newline (known finding yaml-leading-newline)")
-							*x = "_" + (*x)[1:]
-						}
-					}
 					parent := uint32(0)
 					var ids []uint32
 					for id := range n.arts {
@@ -409,13 +401,14 @@ func TestC18(t *testing.T) {
 	rapid.Check(t, c18prop(ev))
 }
 
-// TestC18LeadingNewline decides the class the generator excludes (same root cause as
-// C15's finding): an article whose title starts with a newline must survive a reload.
+// TestC18LeadingNewline: an article whose title starts with a line break, a tab or a
+// line separator and has a second line must survive a reload (the classes yaml.v3's block
+// scalars do not round-trip; repaired in jhalter/mobius for article and account texts).
 func TestC18LeadingNewline(t *testing.T) {
 	ev := evid.New("C18", "TestC18LeadingNewline")
 	defer ev.Flush()
 	rapid.Check(t, func(rt *rapid.T) {
-		title := "\n" + strings.ReplaceAll(string(genBytes(rt, "rest", rapid.IntRange(0, 12).Draw(rt, "len"))), "\x00", "0")
+		title := rapid.SampledFrom([]string{"\n", "\t\n", "\u2028\n", "\t", " \n", "\r\n"}).Draw(rt, "lead") + strings.ReplaceAll(string(genBytes(rt, "rest", rapid.IntRange(0, 12).Draw(rt, "len"))), "\x00", "0")
 		inWorld(rt, hlsim.Options{Agreement: "a", Accounts: []hlsim.AccountSpec{acct("admin", "Admin", "adminpw", allAccess)}}, func(rt *rapid.T, w *hlsim.World) {
 			c := loginAs(rt, w, "10.0.0.1:1", "admin", "adminpw", "admin")
 			if !okReply(c.Request(hlref.TranNewNewsCat, sfld(hlref.FNewsCatName, "C"))) {
@@ -430,9 +423,6 @@ func TestC18LeadingNewline(t *testing.T) {
 			r := c.Request(hlref.TranGetNewsArtData, newsPath([]string{"C"}), fld(hlref.FNewsArtID, hlref.BE32(1)))
 			got, _ := r.Get(hlref.FNewsArtTitle)
 			if string(got) != title {
-				if ev.IsKnown("yaml-leading-newline") {
-					return
-				}
 				rt.Fatalf("article title %q is %q after reloading the news file", title, got)
 			}
 		})
@@ -592,5 +582,55 @@ func TestC18Burst(t *testing.T) {
 		if ev.WantSample() {
 			ev.Sample(map[string]any{"engine": "bubble, concurrent handlers", "posters": n, "rounds": rounds, "body_sizes": sizes, "concurrent_delete": withDelete})
 		}
+	})
+}
+
+// TestC18KeyBlockScalar decides the class of category / bundle names that the state machine's
+// name pool does not contain: names that hold a line break and start with a line break, a tab
+// or a line separator.  They are the keys of the YAML mappings, which mobius hands to yaml.v3
+// unprotected (known finding yaml-key-block-scalar).
+func TestC18KeyBlockScalar(t *testing.T) {
+	ev := evid.New("C18", "TestC18KeyBlockScalar")
+	defer ev.Flush()
+	rapid.Check(t, func(rt *rapid.T) {
+		name := rapid.SampledFrom([]string{"\n", "\t\n", " \n", "\tx\n", "\nx"}).Draw(rt, "lead") + strings.ReplaceAll(strings.ToValidUTF8(string(genBytes(rt, "rest", rapid.IntRange(0, 8).Draw(rt, "len"))), "?"), "\x00", "0")
+		bundle := rapid.Bool().Draw(rt, "bundle")
+		inWorld(rt, hlsim.Options{Agreement: "a", Accounts: []hlsim.AccountSpec{acct("admin", "Admin", "adminpw", allAccess)}}, func(rt *rapid.T, w *hlsim.World) {
+			c := loginAs(rt, w, "10.0.0.1:1", "admin", "adminpw", "admin")
+			var r *hlref.Tran
+			if bundle {
+				r = c.Request(hlref.TranNewNewsFldr, sfld(hlref.FFileName, name))
+			} else {
+				r = c.Request(hlref.TranNewNewsCat, sfld(hlref.FNewsCatName, name))
+			}
+			if !okReply(r) {
+				rt.Fatalf("harness: creating %q refused", name)
+			}
+			listed := func() []string {
+				var out []string
+				for _, d := range c.Request(hlref.TranGetNewsCatNameList).GetAll(hlref.FNewsCatListData15) {
+					cat, err := hlref.DecodeNewsCat(d)
+					if err != nil {
+						rt.Fatalf("category listing unparseable: %v", err)
+					}
+					out = append(out, string(cat.Name))
+				}
+				return out
+			}
+			if got := listed(); len(got) != 1 || got[0] != name {
+				rt.Fatalf("after creating %q the root lists %q", name, got)
+			}
+			err := w.News.Load()
+			if err == nil {
+				if got := listed(); len(got) == 1 && got[0] == name {
+					return
+				}
+			}
+			if ev.IsKnown("yaml-key-block-scalar") {
+				return
+			}
+			rt.Fatalf("after creating the category/bundle %q the news file does not reproduce it on reload (load error: %v, listed: %q)", name, err, listed())
+		})
+		ev.Case(evid.Hash("key", name, bundle), true, "block-scalar-key")
 	})
 }
